@@ -302,3 +302,29 @@ Example C13_ex_inline :
   /\ dfxp_transform_inline (mkCfg true false None None) s = Err ERelativization
   /\ existsb (opt_needs (mkCfg true false None None)) (ns_layout s :: written_layouts s) = true.
 Proof. vm_compute. repeat split. Qed.
+
+(* down to the TEXT of the DFXP document: with relativization on, the attribute strings printed for every <region>
+   (tts:origin / tts:extent / tts:padding through Size.__str__) read back - C12's model of the reader's
+   from_xml_attribute - as a layout whose lengths are all percentages.  Lengths non-negative (the size language). *)
+From PV Require Import proofs.DfxpTreeFacts proofs.Pos13DocFacts.
+Theorem C13_dfxp_document_regions_percent : forall c s s', w_rel c = true -> dfxp_transform c s = Ok s' ->
+  Forall opt_nonneg (written_layouts s') ->
+  forall id a, In (id, a) (map (fun kv => (snd kv, layout_attrs (fst kv))) (region_map (written_layouts s'))) ->
+  exists r, read_region a = Ok r /\ all_pct r = true.
+Proof. exact dfxp_document_regions_percent. Qed.
+Print Assumptions C13_dfxp_document_regions_percent.
+
+Example C13_ex_document_region :
+  let c := mkCfg true true (Some (640 # 1)) (Some (360 # 1)) in
+  let s := mkNset None [mkNlang (Some (mkLayout (Some (mkPoint (mkSize (64 # 1) PX) (mkSize (36 # 1) PX))) None None None None))
+                                [mkNcap None [mkNode 1 None]]] in
+  match dfxp_transform c s with
+  | Ok s' => Forall opt_nonneg (written_layouts s')
+             /\ map (fun kv => (snd kv, ra_origin (layout_attrs (fst kv)))) (region_map (written_layouts s'))
+                = [(RId 0, Some (lit "10% 10%")); (RDefault, None)]
+  | Err _ => False
+  end.
+Proof.
+  vm_compute. split; [|reflexivity].
+  repeat constructor; cbn; intros H; discriminate H.
+Qed.
